@@ -298,3 +298,26 @@ Fixpoint bad_gcases (cs : seq gcase) (i : nat) : seq nat :=
   | c :: r => let k := check_gcase c in
               if k == 0 then bad_gcases r i.+1 else (i * 16 + k) :: bad_gcases r i.+1
   end.
+
+(* StochasticLQ.to_dense for one batch member: eigenvalues / eigenvectors per probe (as returned by
+   lanczos_tridiag_to_diag on the implementation), the codes of the functions (0: x, 1: x^2, 2: x^3, 3: 1/x) and the
+   list the implementation returned; every entry is compared relative to its own magnitude *)
+Definition slq_func (c : nat) : float -> float :=
+  match c with
+  | 0 => fun x => x
+  | 1 => fun x => PrimFloat.mul x x
+  | 2 => fun x => PrimFloat.mul (PrimFloat.mul x x) x
+  | _ => fun x => PrimFloat.div one x
+  end.
+Record qcase := MkQCase { q_n : nat; q_k : nat; q_evals : seq fvec; q_evecs : seq fmat; q_funcs : seq nat; q_obs : fvec; q_rtol : float }.
+Definition rclose (tol a b : float) : bool :=
+  close1 (PrimFloat.mul tol (fmax (PrimFloat.abs a) (PrimFloat.abs b))) a b.
+Definition check_qcase (c : qcase) : nat :=
+  let r := slq_to_dense ArFloat (q_n c) (q_k c) (q_evals c) (q_evecs c) (map slq_func (q_funcs c)) in
+  if all2 (rclose (q_rtol c)) r (q_obs c) then 0 else 1.
+Fixpoint bad_qcases (cs : seq qcase) (i : nat) : seq nat :=
+  match cs with
+  | [::] => [::]
+  | c :: r => let k := check_qcase c in
+              if k == 0 then bad_qcases r i.+1 else (i * 16 + k) :: bad_qcases r i.+1
+  end.
